@@ -163,9 +163,13 @@ func runPQ(k *kernel.K) {
 	if secondNet(k, "pq") {
 		return
 	}
-	mode := k.Choose(5, "mode")
+	mode := k.Choose(6, "mode")
 	if mode == 4 {
 		runTxState(k)
+		return
+	}
+	if mode == 5 {
+		runPQTimer(k)
 		return
 	}
 	if mode == 0 {
